@@ -212,6 +212,10 @@ void Parameter::save(const string &path, bool with_stats) const  {
   writer << static_cast<std::uint32_t>(FileFormat::DataType::PARAMETER);
 
   save_inner(writer, with_stats);
+  ofs.close();
+  if (ofs.fail()) {
+    PRIMITIV_THROW_ERROR("Could not write file: " << path);
+  }
 }
 
 void Parameter::reset_gradient() {
